@@ -7,7 +7,7 @@ From MMD.lib Require Import Lemon Utf8 XmlDfa.
 From MMD.lib Require Import MiniC BlockComp.
 From MMD.gen Require Import ParserTables Bounds.
 From MMD.gen Require Import Escapers CharTable.
-From MMD.model Require Import DStringModel DStringSpec PoolModel TreeCheck LabelModel CriticModel TranscludeModel MetaModel AnchorModel HeaderIdModel OpmlModel MetaSwitchModel TableAlignModel SpecRender BlockLang TokenHeap PairMatch.
+From MMD.model Require Import DStringModel DStringSpec PoolModel TreeCheck LabelModel CriticModel TranscludeModel MetaModel AnchorModel HeaderIdModel OpmlModel MetaSwitchModel TableAlignModel SpecRender BlockLang TokenHeap PairMatch Ambidextrous.
 From MMD.proofs Require Import EscaperProofs PairMatchProofs.
 Extraction Language OCaml.
 Extraction "mmdmodel.ml"
@@ -31,4 +31,5 @@ Extraction "mmdmodel.ml"
   SpecRender.render_doc SpecRender.spell_doc
   BlockComp.bc_F BlockComp.drun BlockLang.dstep BlockLang.FIN ParserTables.NT_block
   TokenHeap.th_run PairMatch.pm_run
-  PairMatchProofs.dl_check PairMatchProofs.msym_check PairMatchProofs.order_check.
+  PairMatchProofs.dl_check PairMatchProofs.msym_check PairMatchProofs.order_check
+  Ambidextrous.assign_all Ambidextrous.assign_toks.
